@@ -162,6 +162,9 @@ func (flex *FlexEncoder03) encodeFlexFecPacket(fecPacketIndex uint32, mediaBaseS
 			tmpMediaPacketBuf = make([]byte, packetSize)
 		}
 
+		// MarshalTo does not write the padding octets (only the trailing count): without clearing,
+		// whatever an earlier packet left in the scratch buffer would be XOR-ed into the repair data
+		clear(tmpMediaPacketBuf[:packetSize])
 		n, err := mediaPacket.MarshalTo(tmpMediaPacketBuf[:packetSize])
 		if n == 0 || err != nil {
 			return rtp.Packet{}, false
